@@ -564,11 +564,12 @@ WORLDS = {
     "split4": dict(n=4, prefix=[("timeout", "n0"), ("timeout", "n1"),
                                 ("keeponly", ("RequestVote", "n0", "n2"), ("RequestVote", "n1", "n3"))],
                    timeouts=1, max_term=2, hbs=0, max_msgs=6),
-    # four nodes, replication/commit step: n0 leads term 1 (everybody acknowledged), holds c0 nobody else has
+    # four nodes, replication/commit step: n0 leads term 1 (everybody acknowledged), holds c0 and has sent it;
+    # a {n0,n1} | {n2,n3} split lost the copies for n2 and n3
     "repl4": dict(n=4, prefix=[("timeout", "n0"), ("msg", "RequestVote", "n0", "n1"), ("msg", "RequestVote", "n0", "n2"),
                                ("msg", "RequestVote", "n0", "n3"), ("msg", "VoteResponse", "n1", "n0"),
                                ("msg", "VoteResponse", "n2", "n0"), ("msg", "VoteResponse", "n3", "n0"), ("drain",),
-                               ("submit", "n0")],
+                               ("submit", "n0"), ("hb", "n0"), ("keeponly", ("AppendEntries", "n0", "n1"))],
                   timeouts=1, max_term=2, hbs=1, max_msgs=5),
     # five nodes, the same node leads twice with a foreign leader in between: n0 led term 1 with [c0,c1] and n1
     # ACKNOWLEDGED both (no commit: 2 of 5); n2 won term 2 (n3, n4), wrote c2 and overwrote n0's and n1's logs;
@@ -916,8 +917,11 @@ QUICK_WORLDS = [
     ("stale-resp5", "stale-resp5", dict(max_msgs=5), 300_000),
     ("behind", "behind", dict(hbs=0, max_msgs=4), 300_000),
     ("late-vote", "late-vote", None, 300_000),
-    ("elect-t2", "elect", dict(timeouts=2, max_msgs=8), 300_000),
+    ("split4", "split4", None, 300_000),
+    ("releader5", "releader5", None, 300_000),
     ("elect-t3", "elect", dict(timeouts=3, max_msgs=4), 300_000),
+    ("diverge", "diverge", dict(timeouts=1, max_term=3, hbs=1, max_msgs=4), 300_000),
+    ("repl4", "repl4", dict(hbs=0), 300_000),
     ("free", "free", dict(max_msgs=3), 300_000),
     ("crash", "crash-repl", dict(hbs=1, max_msgs=2, timeouts=1), 300_000),
     ("repl", "repl", None, 300_000),
@@ -943,6 +947,11 @@ THOROUGH_WORLDS = [
     ("crash-change", "crash-change", dict(max_msgs=3, timeouts=1), 600_000),
     ("repl-s3", "repl", dict(submits=3, hbs=2), 600_000),
     ("crash-change-m2", "crash-change", dict(max_msgs=2), 600_000),
+    ("repl4", "repl4", None, 600_000),
+    ("diverge", "diverge", dict(timeouts=2, max_term=3, hbs=1, max_msgs=4), 600_000),
+    ("elect-t2", "elect", dict(timeouts=2, max_msgs=8), 600_000),
+    ("split4", "split4", None, 600_000),
+    ("releader5", "releader5", None, 600_000),
     ("late-vote", "late-vote", None, 600_000),
 ]
 
@@ -966,7 +975,7 @@ def main(tier, seed, only=None):
                            "`_crashed` flag CrashNode sets (Event.invoke drops events), restart clears it and "
                            "calls start() again",
                            "messages are not duplicated (the statement names delay, reordering, loss)",
-                           "cluster size 3; 5 in the stale-resp5 world (both tiers) and 4 / 5 in thorough election worlds",
+                           "cluster size 3; 4 in split4 / repl4 and 5 in stale-resp5 / releader5 (both tiers); 4 / 5 also in thorough election worlds",
                            "E2 horizon: 4 heartbeat intervals after the last submit; premise checked at t_est: "
                            "exactly one leader, all other nodes followers of it in its term"])
     t0 = time.time()
